@@ -65,6 +65,10 @@ func (v *BasicSeqnoValidator) validate(ctx context.Context, _ peer.ID, m *Messag
 	var seqno uint64
 	seqnoBytes := m.GetSeqno()
 	if len(seqnoBytes) > 0 {
+		if len(seqnoBytes) < 8 {
+			// malformed: a seqno is a 64-bit big-endian integer
+			return ValidationReject
+		}
 		seqno = binary.BigEndian.Uint64(seqnoBytes)
 	}
 
